@@ -149,4 +149,4 @@ def check(ctx):
     ctx.run('C06.R4', 'resources dropped exactly once: assume_init_drop iff status != Complete; Complete stored before read-out (LIFE-5)', r4_resources_once)
     ctx.run('C06.R4b', 'LIFE-5 resource access discipline in poll_inner', life.life5)
     ctx.run('C06.R5', 'ReceiveSignals::into_inner: ManuallyDrop before its single OpState::drop', r5_into_inner)
-    ctx.run('C06.R6', 'cancel acknowledgements (CANCEL_USER_DATA) filtered before any pointer is formed (C05.R4)', c05.r4_filter_first)
+    ctx.run('C06.R6', 'cancel acknowledgements (CANCEL_USER_DATA) filtered before any pointer is formed (C05.R4)', lambda r, facts: c05.r4_filter_first(r, facts, only={facts.const('io_uring::cq::CANCEL_USER_DATA')}))
